@@ -43,6 +43,14 @@ class Ctx:
         if s.conc:
             import math
             return Rat(Fraction(math.sqrt(max(0.0, float(x.frac())))))
+        # reuse the executor's own witness when the radicand is the same polynomial (premise-free identity check)
+        for (e, y) in s.S.witnesses:
+            idn = (x.n * e.d == e.n * x.d)
+            if isinstance(idn, bool):
+                if idn: return Rat(y)
+                continue
+            chk = z3.Solver(); chk.set('timeout', 1000); chk.add(z3.Not(idn))
+            if chk.check() == z3.unsat: return Rat(y)
         s.S.fresh += 1; y = z3.Real('csqrt_%d' % s.S.fresh)
         s.extra += [y >= 0, y * y * x.d == x.n]
         return Rat(y)
@@ -53,10 +61,10 @@ class Ctx:
 
 class Case:
     def __init__(s, name, func, args, claim, pre=None, T='d', setup=None, timeout_ms=20000, desc='', bounds='', max_paths=3000,
-                 tier='quick', core=True, budget=150, nvalid=6, sample=None, expect_paths=None, path_timeout_ms=3000):
+                 tier='quick', core=True, budget=150, nvalid=6, sample=None, expect_paths=None, path_timeout_ms=3000, allow_divzero=False):
         s.name = name; s.func = func.replace('{T}', T); s.args = args; s.claim = claim; s.pre = pre; s.T = T; s.setup = setup
         s.timeout_ms = timeout_ms; s.desc = desc; s.bounds = bounds; s.max_paths = max_paths; s.tier = tier; s.core = core
-        s.budget = budget; s.nvalid = nvalid; s.sample = sample; s.path_timeout_ms = path_timeout_ms
+        s.budget = budget; s.nvalid = nvalid; s.sample = sample; s.path_timeout_ms = path_timeout_ms; s.allow_divzero = allow_divzero
     @property
     def esz(s): return 4 if s.T == 'f' else 8
 
@@ -175,13 +183,18 @@ def run_case(case, module, real_so):
     if case.setup: case.setup(sym)
     st, I, argv, bufs = _build_state(case)
     if case.pre: st.pc += [c for c in case.pre(I) if c is not True]
+    npre = len(st.pc)
     sub = []; verdict = 'holds'; model_out = None; npaths = 0; q = 0; witness = False; detail = ''
     try:
         for fs, rv in sym.run(case.func, argv, st):
             npaths += 1
             O = _outputs(case, fs, rv, bufs)
             X = Ctx(sym, fs)
-            cls = _claims(case, I, O, X)
+            if fs.exc == 'DIVZERO':
+                if getattr(case, 'allow_divzero', False): continue
+                cls = [('no floating-point division by zero for inputs satisfying the precondition', False)]
+            else:
+                cls = _claims(case, I, O, X)
             if not witness:
                 w = z3.Solver(); w.set('timeout', 5000); w.add(*fs.pc); w.add(*sym.axioms)
                 q += 1
@@ -190,10 +203,10 @@ def run_case(case, module, real_so):
                 if isinstance(f, tuple) and f and f[0] == 'anyof':
                     # alternatives ordered from strongest to weakest (last one is the actual claim): any proved one suffices
                     for alt in f[1:]:
-                        r, m, dt = solve(fs.pc + X.extra, alt, sym.axioms, case.timeout_ms); q += 1
+                        r, m, dt = solve(fs.pc + X.extra, alt, sym.axioms, case.timeout_ms, npre=npre); q += 1
                         if r == 'unsat': break
                 else:
-                    r, m, dt = solve(fs.pc + X.extra, f, sym.axioms, case.timeout_ms); q += 1
+                    r, m, dt = solve(fs.pc + X.extra, f, sym.axioms, case.timeout_ms, npre=npre); q += 1
                 if r == 'unsat': continue
                 if r == 'unknown':
                     if verdict == 'holds': verdict = 'unknown'
@@ -276,6 +289,7 @@ def validate_case(case, module, real_so, rng, n=None):
             paths = list(sym.run(case.func, argv, st))
         except (Unsupported, S.PathLimit, ZeroDivisionError):
             continue
+        paths = [p_ for p_ in paths if p_[0].exc != 'DIVZERO']
         if len(paths) != 1: continue
         fs, rv = paths[0]
         O = _outputs(case, fs, rv, bufs)
